@@ -281,6 +281,12 @@ class SpecRT:
         return len(stmts) == 1 and isinstance(stmts[0], ast.Return) and stmts[0].value is not None
 
     def ite_sv(self, b, v1, v2):
+        # an optional number met where the contract declares a plain one: its value (the call site's precondition obligations
+        # and path condition say it is not None; a None would have failed the callee's own arithmetic)
+        if isinstance(v1, SOpt) and not isinstance(v2, SOpt) and type(v1.inner) is type(v2):
+            v1 = v1.inner
+        if isinstance(v2, SOpt) and not isinstance(v1, SOpt) and type(v2.inner) is type(v1):
+            v2 = v2.inner
         if isinstance(v1, SInt) and isinstance(v2, SInt):
             return SInt(z3.If(b, v1.t, v2.t))
         if isinstance(v1, SBool) and isinstance(v2, SBool):
